@@ -4,6 +4,13 @@ import json, os
 V = os.path.dirname(os.path.dirname(os.path.abspath(__file__)))
 # property -> (technique, DESIGN section)
 CLAIMED = {
+ "C03": ("rapidcheck-driven exact differential test of pairwise/single-tensor einsum, contraction, inner, outer and explicit-output forms against a generic labelled Einstein-summation oracle over stratified index patterns", "5/C03"),
+ "C06": ("differential testing through a common reference: a sampled corpus of every property's generated instances rebuilt under a pairwise covering array of ISA x std x opt x asserts x compiler plus each macro, same rapidcheck seed everywhere, judged by the owners' configuration-independent oracles; compiler acceptance compared", "5/C06"),
+ "C10": ("rapidcheck-constructed well-conditioned matrices (diagonally dominant, orthogonal x diagonal, row-permuted) with long-double residual oracle scaled by measured conditioning, all six inverse strategies, tinverse, batched inverse", "5/C10"),
+ "C11": ("rapidcheck-constructed matrices; exact structural checks (unit lower, exact zeros, permutation bijection) and element-wise backward-error bound against long-double products", "5/C11"),
+ "C12": ("rapidcheck-constructed systems with long-double residual oracle scaled by measured conditioning over all implemented solve strategies, right-hand-side shapes, lazy solve and substitution helpers", "5/C12"),
+ "C13": ("rapidcheck-constructed matrices of prescribed condition number; exact zero structure, orthogonality and reconstruction residuals in long double, permutation bijection, det_QR == prod diag R", "5/C13"),
+ "C15": ("rapidcheck-driven exact differential test of 3/4-operand einsum against an n-ary Einstein-summation oracle over stratified topologies with extent assignments that make each pairing plan the cost-model winner", "5/C15"),
  "C04": ("bounded-exhaustive enumeration of all (first,last,step) triples and encodings for rank 1-2 parents plus rapidcheck-drawn ranges for ranks 3-5, mixed/compile-time ranges and scalar indices, against an offset-list slice model over 13 consumption routes", "5/C04"),
  "C05": ("enumerated and rapidcheck-drawn slice writes and write histories against a plain-array model with whole-parent bitwise comparison, guard-window and source-unchanged checks", "5/C05"),
  "C09": ("generated statement programs rendered twice (lazy operators vs eager functions into temporaries) from one tree and compared; chains also against the explicit left-to-right product; long-double interpreter supplies the rounding bound", "5/C09"),
